@@ -69,28 +69,28 @@ theorem C16_unionAll_never_witness :
 
 /-- **any/unknown accept everything (compact side).** Whatever is expected, a value of type `any` or
 `unknown` is accepted. -/
-theorem C16_check_compact_any (e : Env) (f lvl : Nat) (s c : Ty) (hc : c = tAny ∨ c = tUnknown) :
-    checkGeneral e (f + 1) lvl s c = .ok :=
-  checkGeneral_compact_likeAny e f lvl s c (by rcases hc with rfl | rfl <;> rfl)
+theorem C16_check_compact_any (e : Env) (ip : List (Name × Ty)) (f lvl : Nat) (s c : Ty) (hc : c = tAny ∨ c = tUnknown) :
+    checkGeneral e ip (f + 1) lvl s c = .ok :=
+  checkGeneral_compact_likeAny e ip f lvl s c (by rcases hc with rfl | rfl <;> rfl)
 
 /-- **any/unknown accept everything (expected side).** With `any`/`unknown` expected every compact type
 that is not an alias reference is accepted at once; through alias references the only other outcomes
 are the guard's `TypeRecursion` (alias chain deeper than 100) — never a mismatch. -/
 theorem C16_check_any_unknown (e : Env) (s : Ty) (hs : s = tAny ∨ s = tUnknown) (f lvl : Nat) (c : Ty) :
-    (escapeType e c = none → checkGeneral e (f + 1) lvl s c = .ok) ∧
-    (checkGeneral e f lvl s c = .ok ∨ checkGeneral e f lvl s c = .recursion ∨
-      checkGeneral e f lvl s c = .outOfFuel) :=
-  ⟨checkGeneral_source_likeAny_no_alias e s hs f lvl c, checkGeneral_source_likeAny e s hs f lvl c⟩
+    (escapeType e c = none → checkGeneral e ip (f + 1) lvl s c = .ok) ∧
+    (checkGeneral e ip f lvl s c = .ok ∨ checkGeneral e ip f lvl s c = .recursion ∨
+      checkGeneral e ip f lvl s c = .outOfFuel) :=
+  ⟨checkGeneral_source_likeAny_no_alias e ip s hs f lvl c, checkGeneral_source_likeAny e ip s hs f lvl c⟩
 
 /-- **reflexivity, atoms.** Every basic kind except `self`, every literal constant and every class or
 alias reference is assignable to itself. (Compound types: see the notes; covered by the tie + oracle.) -/
 theorem C16_check_refl_atom_partial (e : Env) (f lvl : Nat) (t : Ty)
     (ht : (∃ k, t = .prim k ∧ k ≠ .selfInfer) ∨ (∃ c, t = .lit c) ∨ (∃ n, t = .ref n)) :
-    checkGeneral e (f + 2) lvl t t = .ok := by
+    checkGeneral e ip (f + 2) lvl t t = .ok := by
   rcases ht with ⟨k, rfl, hk⟩ | ⟨c, rfl⟩ | ⟨n, rfl⟩
-  · exact checkGeneral_refl_prim e (f + 1) lvl k hk
-  · exact checkGeneral_refl_lit e f lvl c
-  · exact checkGeneral_refl_ref e (f + 1) lvl n
+  · exact checkGeneral_refl_prim e ip (f + 1) lvl k hk
+  · exact checkGeneral_refl_lit e ip f lvl c
+  · exact checkGeneral_refl_ref e ip (f + 1) lvl n
 
 /-- current code: a `table<…>` instance whose arity is not 2 is not assignable to itself
 (known finding `C16-table-arity`) -/
